@@ -285,7 +285,8 @@ fn build_type(
     let (packed, alignment) = if *packed {
         (quote! { , packed }, quote! {})
     } else {
-        let alignment: syn::Index = alignment.into();
+        // not syn::Index, which only holds a u32
+        let alignment = proc_macro2::Literal::usize_unsuffixed(alignment);
         (quote! {}, quote! { , align(#alignment) })
     };
 
